@@ -457,7 +457,7 @@ def c17_inter(fam: int, m: int, c: C3, perm: int, optim: int, d0: int, d1: int, 
 
 
 # ----------------------------------------------------------------------------------------
-# shards (every shard pins fam, m, ng, grp; sizes: <= ~1500 inputs quick, <= ~6500 thorough)
+# shards (every shard pins fam, m, ng, grp; sizes: <= ~1300 inputs quick, <= ~3300 thorough)
 
 def _multisets(fam, m):
     """number of non-decreasing m-tuples of rule codes of the family"""
@@ -498,7 +498,7 @@ def _shards_verdict(tier):
     out += _verdict_block(0, 4, q, optim=[7], perm=[0], shuf=[0])
     if tier == "quick":
         return out
-    t = 6500
+    t = 3300
     out += _verdict_block(0, 4, t, optim=[0], perm=M4_PERMS, shuf=[0])
     out += _verdict_block(0, 3, q, optim=[8], perm=[0], shuf=[1, 2, 3, 4])
     out += _verdict_block(0, 3, q, optim=[7], perm=[1, 2, 3, 4], shuf=[0])
